@@ -161,7 +161,7 @@ Lemma update_leaf_panic t p v n t' w :
   f_equal fl = true /\ w = panic_equal /\ n_atomic n = false /\ v = TVnil.
 Proof.
   intros [Hwf Hok] Hv. unfold update_leaf.
-  destruct (get (ts_tree t) p) as [[old|cs]|] eqn:Eg; [| intros H; discriminate H |].
+  destruct (CTreeModel.get (ts_tree t) p) as [[old|cs]|] eqn:Eg; [| intros H; discriminate H |].
   - apply get_leaf_exact in Eg. destruct (Hok _ _ Eg) as [Hne Hw].
     destruct (Z.ltb (n_ts n) (n_ts old)); [intros H; discriminate H|].
     destruct (Z.eqb (n_ts n) (n_ts old) && notif_eqb old n); [intros H; discriminate H|].
@@ -171,7 +171,7 @@ Proof.
     intros H; inversion H; subst.
     unfold wire_notif in Hw. rewrite Eo in Hw. cbn in Hw. apply andb_true_iff in Hw as [Hw _].
     destruct (equal_gen_panic_inv _ _ _ _ Hw Hv Ee) as (H1 & _ & H3). auto.
-  - destruct (add (ts_tree t) p n); intros H; discriminate H.
+  - destruct (CTreeModel.add (ts_tree t) p n); intros H; discriminate H.
 Qed.
 
 Lemma gnmi_update1_panic t n t' w k :
@@ -210,10 +210,10 @@ Proof.
   destruct (join_path_ok pr (Some d) Hne) as [p Hp]. rewrite Hp in *.
   destruct p as [|p0 [|k r]].
   - destruct (f_idx fl); [|discriminate H]. inversion H; subst.
-    split; [reflexivity|]. split; [auto|]. exists d, ds. auto.
+    split; [reflexivity|]. split; [auto|]. exists d, ds. split; [reflexivity|]. rewrite ?Hp. reflexivity.
   - destruct (String.eqb p0 md_root) eqn:E; [|discriminate H].
     destruct (f_idx fl); [|discriminate H]. inversion H; subst.
-    split; [reflexivity|]. split; [auto|]. exists d, ds. cbn. rewrite E. auto.
+    split; [reflexivity|]. split; [auto|]. exists d, ds. split; [reflexivity|]. rewrite ?Hp. cbn. now rewrite E.
   - destruct (String.eqb p0 md_root); discriminate H.
 Qed.
 
@@ -229,7 +229,7 @@ Qed.
 
 Lemma tree_ok_tree_set tr p n : tree_ok tr -> stored_ok n -> tree_ok (tree_set tr p n).
 Proof.
-  intros Hok Hn. unfold tree_set. destruct (add tr p n) eqn:E; [eapply tree_ok_add; eauto|assumption].
+  intros Hok Hn. unfold tree_set. destruct (CTreeModel.add tr p n) eqn:E; [eapply tree_ok_add; eauto|assumption].
 Qed.
 
 Lemma tree_ok_delete tr q c : tree_ok tr -> tree_ok (fst (delete_cond tr q c)).
@@ -251,14 +251,14 @@ Proof.
   { replace t1 with (fst (update_pre fl t p (u_val u))) by now rewrite Ep. apply update_pre_tree. }
   destruct o as [x|e|w]; cbn [fst]; try (rewrite Ht1; assumption).
   unfold update_leaf. rewrite Ht1.
-  destruct (get (ts_tree t) p) as [[old|cs]|]; cbn [fst]; try (rewrite Ht1; assumption).
+  destruct (CTreeModel.get (ts_tree t) p) as [[old|cs]|]; cbn [fst]; try (rewrite Ht1; assumption).
   - destruct (Z.ltb _ _); cbn [fst]; [rewrite Ht1; assumption|].
     destruct (_ && _); cbn [fst]; [rewrite Ht1; assumption|].
     assert (tree_ok (tree_set (ts_tree t) p n)) by now apply tree_ok_tree_set.
     destruct (n_atomic n); cbn [fst ts_tree]; [assumption|].
     destruct (n_upd old); cbn [fst ts_tree]; [assumption|].
     destruct (equal_gen _ _ _); cbn [fst ts_tree]; assumption.
-  - destruct (add (ts_tree t) p n) eqn:Ea; cbn [fst ts_tree]; [|rewrite Ht1; assumption].
+  - destruct (CTreeModel.add (ts_tree t) p n) eqn:Ea; cbn [fst ts_tree]; [|rewrite Ht1; assumption].
     eapply tree_ok_add; eauto.
 Qed.
 
@@ -277,3 +277,716 @@ Proof.
 Qed.
 
 End IngestProofs.
+
+Section IngestTheorems.
+Variable fl : flags.
+
+(** why a message can make Cache.GnmiUpdate panic: always one of the listed
+    defect classes (the class predicates are the ones K_P uses) *)
+Definition attrib (n : notif) (w : N) : Prop :=
+  (f_idx fl = true /\ (w = panic_path0 \/ w = panic_path1) /\ class_idx n = true) \/
+  (f_nilval fl = true /\ w = panic_nil_val /\ class_nilval n = true) \/
+  (f_equal fl = true /\ w = panic_equal /\ n_atomic n = false /\
+   exists u, In u (n_upd n) /\ u_val u = TVnil).
+
+Lemma wire_clone n u : wire_notif n = true -> In u (n_upd n) -> wire_notif (clone_with_update n u) = true.
+Proof.
+  unfold wire_notif. cbn. intros H Hin. rewrite forallb_forall in H. now rewrite (H u Hin).
+Qed.
+
+Lemma attrib1_clone n u w :
+  n_atomic n = false -> In u (n_upd n) -> attrib1 fl (clone_with_update n u) w -> attrib n w.
+Proof.
+  intros Hat Hin. unfold attrib1, attrib, unit_path, unit_val, idx_of. cbn. rewrite Hat.
+  intros [(H1 & H2 & H3)|[(H1 & H2 & H3 & H4)|(H1 & H2 & _ & H4)]].
+  - left. repeat split; auto. unfold class_idx. rewrite Hat. apply orb_true_iff. left.
+    apply existsb_exists. exists u. split; auto.
+  - right; left. repeat split; auto. unfold class_nilval. rewrite Hat.
+    apply existsb_exists. exists u. split; auto. unfold idx_of. rewrite H3, H4. reflexivity.
+  - right; right. repeat split; auto. eauto.
+Qed.
+
+Definition acc_ok (a : acc) : Prop := tree_ok (ts_tree (a_t a)).
+
+Lemma multi_updates_inv n k :
+  wire_notif n = true -> n_atomic n = false ->
+  (exists pr, n_prefix n = Some pr /\ gp_target pr = k) -> k <> "" ->
+  forall us a, incl us (n_upd n) -> acc_ok a ->
+    (forall w, a_panic a = Some w -> attrib n w) ->
+    let a' := fold_left (multi_update_step fl n) us a in
+    acc_ok a' /\ (forall w, a_panic a' = Some w -> attrib n w).
+Proof.
+  intros Hw Hat Hpr Hk. induction us as [|u us IH]; intros a Hincl Hok Hp; cbn [fold_left]; [auto|].
+  apply IH; [intros x Hx; apply Hincl; now right| |].
+  - unfold multi_update_step. destruct (a_panic a); [assumption|].
+    pose proof (gnmi_update1_ok fl (a_t a) (clone_with_update n u) Hok) as H.
+    assert (Hs : stored_ok (clone_with_update n u)).
+    { split; [cbn; discriminate|apply wire_clone; auto; apply Hincl; now left]. }
+    specialize (H Hs). unfold acc_ok.
+    destruct (gnmi_update1 fl (a_t a) (clone_with_update n u)) as [t' [x|e|w]]; cbn in *; assumption.
+  - unfold multi_update_step. destruct (a_panic a) eqn:Ea; [intros w E; apply Hp; congruence|].
+    destruct (gnmi_update1 fl (a_t a) (clone_with_update n u)) as [t' [x|e|w1]] eqn:Eg; cbn;
+      try (intros w E; discriminate E).
+    intros w E; inversion E; subst.
+    apply attrib1_clone with (u := u); auto; [apply Hincl; now left|].
+    eapply gnmi_update1_panic with (k := k); eauto.
+    + apply wire_clone; auto. apply Hincl; now left.
+    + cbn. discriminate.
+Qed.
+
+Lemma multi_deletes_inv n k :
+  (exists pr, n_prefix n = Some pr /\ gp_target pr = k) -> k <> "" ->
+  forall ds a, incl ds (n_del n) -> acc_ok a ->
+    (forall w, a_panic a = Some w -> attrib n w) ->
+    let a' := fold_left (multi_delete_step fl n) ds a in
+    acc_ok a' /\ (forall w, a_panic a' = Some w -> attrib n w).
+Proof.
+  intros Hpr Hk. induction ds as [|d ds IH]; intros a Hincl Hok Hp; cbn [fold_left]; [auto|].
+  apply IH; [intros x Hx; apply Hincl; now right| |].
+  - unfold multi_delete_step. destruct (a_panic a); [assumption|].
+    pose proof (gnmi_remove_ok fl (a_t a) (clone_with_delete n d) Hok) as H. unfold acc_ok.
+    destruct (gnmi_remove fl (a_t a) (clone_with_delete n d)) as [t' [x|e|w]]; cbn in *; assumption.
+  - unfold multi_delete_step. destruct (a_panic a) eqn:Ea; [intros w E; apply Hp; congruence|].
+    destruct (gnmi_remove fl (a_t a) (clone_with_delete n d)) as [t' [x|e|w1]] eqn:Eg; cbn;
+      try (intros w E; discriminate E).
+    intros w E; inversion E; subst.
+    apply gnmi_remove_panic with (k := k) in Eg as (H1 & H2 & d' & rest & H3 & H4); auto;
+      [|cbn; discriminate].
+    cbn in H3. inversion H3; subst. left. repeat split; auto.
+    unfold class_idx. apply orb_true_iff. right. apply existsb_exists. exists d'. split; [apply Hincl; now left|].
+    exact H4.
+Qed.
+
+(** the multi-notification arm of Target.GnmiUpdate *)
+Definition multi (t : tstate) (n : notif) : tstate * gres :=
+  let a1 := fold_left (multi_update_step fl n) (n_upd n) (Acc t [] None) in
+  let a2 := fold_left (multi_delete_step fl n) (n_del n) a1 in
+  (a_t a2,
+   match a_panic a2 with
+   | Some w => GPanic w
+   | None => match a_errs a2 with [] => GOk | es => GErrs es end
+   end).
+
+Lemma multi_inv t n k :
+  tree_ok (ts_tree t) -> wire_notif n = true -> n_atomic n = false ->
+  (exists pr, n_prefix n = Some pr /\ gp_target pr = k) -> k <> "" ->
+  tree_ok (ts_tree (fst (multi t n))) /\ (forall w, snd (multi t n) = GPanic w -> attrib n w).
+Proof.
+  intros Hok Hw Hat Hpr Hk. unfold multi.
+  destruct (multi_updates_inv n k Hw Hat Hpr Hk (n_upd n) (Acc t [] None)) as [H1 H2];
+    [apply incl_refl|exact Hok|cbn; intros w E; discriminate E|].
+  destruct (multi_deletes_inv n k Hpr Hk (n_del n) _ (incl_refl _) H1 H2) as [H3 H4].
+  cbn [fst snd]. split; [exact H3|].
+  set (a2 := fold_left (multi_delete_step fl n) (n_del n) _) in *.
+  intros w. destruct (a_panic a2) eqn:E.
+  - intros Hq; inversion Hq; subst. now apply H4.
+  - destruct (a_errs a2); intros Hq; discriminate Hq.
+Qed.
+
+Lemma unit_update_inv t n k :
+  tree_ok (ts_tree t) -> wire_notif n = true -> n_upd n <> [] ->
+  (n_atomic n = true \/ exists u, n_upd n = [u]) ->
+  (exists pr, n_prefix n = Some pr /\ gp_target pr = k) -> k <> "" ->
+  tree_ok (ts_tree (fst (lift1 (gnmi_update1 fl t n)))) /\
+  (forall w, snd (lift1 (gnmi_update1 fl t n)) = GPanic w -> attrib n w).
+Proof.
+  intros Hok Hw Hne Hshape Hpr Hk.
+  pose proof (gnmi_update1_ok fl t n Hok (conj Hne Hw)) as H1.
+  destruct (gnmi_update1 fl t n) as [t' [x|e|w1]] eqn:Eg; cbn in *; split; auto;
+    try (intros w E; discriminate E).
+  intros w E; inversion E; subst.
+  pose proof (gnmi_update1_panic fl t n t' w k Hok Hw Hpr Hk Eg Hne) as Ha.
+  unfold attrib1, attrib, unit_path, unit_val in *.
+  destruct (n_upd n) as [|u us] eqn:Eu; [congruence|].
+  destruct Hshape as [Hat|[u' Hu']].
+  - rewrite Hat in *.
+    destruct Ha as [(A1 & A2 & A3)|[(A1 & A2 & A3 & A4)|(A1 & A2 & A3 & A4)]]; [| |discriminate].
+    + left. repeat split; auto. unfold class_idx. rewrite Hat, Eu. now rewrite A3.
+    + right; left. repeat split; auto. unfold class_nilval. rewrite Hat, Eu, A3, A4. reflexivity.
+  - inversion Hu'; subst.
+    destruct (n_atomic n) eqn:Hat.
+    + destruct Ha as [(A1 & A2 & A3)|[(A1 & A2 & A3 & A4)|(A1 & A2 & A3 & A4)]]; [| |discriminate].
+      * left. repeat split; auto. unfold class_idx. rewrite Hat, Eu. now rewrite A3.
+      * right; left. repeat split; auto. unfold class_nilval. rewrite Hat, Eu, A3, A4. reflexivity.
+    + destruct Ha as [(A1 & A2 & A3)|[(A1 & A2 & A3 & A4)|(A1 & A2 & A3 & A4)]].
+      * left. repeat split; auto. unfold class_idx. rewrite Hat, Eu. cbn. now rewrite A3.
+      * right; left. repeat split; auto. unfold class_nilval. rewrite Hat, Eu. cbn. now rewrite A3, A4.
+      * right; right. repeat split; auto. exists u'. split; [now left|assumption].
+Qed.
+
+Lemma unit_delete_inv t n k d :
+  tree_ok (ts_tree t) -> n_del n = [d] ->
+  (exists pr, n_prefix n = Some pr /\ gp_target pr = k) -> k <> "" ->
+  tree_ok (ts_tree (fst (lift1 (gnmi_remove fl t n)))) /\
+  (forall w, snd (lift1 (gnmi_remove fl t n)) = GPanic w -> attrib n w).
+Proof.
+  intros Hok Hd Hpr Hk.
+  pose proof (gnmi_remove_ok fl t n Hok) as H1.
+  destruct (gnmi_remove fl t n) as [t' [x|e|w1]] eqn:Eg; cbn in *; split; auto;
+    try (intros w E; discriminate E).
+  intros w E; inversion E; subst.
+  apply gnmi_remove_panic with (k := k) in Eg as (A1 & A2 & d' & rest & A3 & A4); auto;
+    [|rewrite Hd; discriminate].
+  rewrite Hd in A3. inversion A3; subst. left. repeat split; auto.
+  unfold class_idx. apply orb_true_iff. right. rewrite Hd. cbn. now rewrite A4.
+Qed.
+
+Lemma target_inv t n k :
+  tree_ok (ts_tree t) -> wire_notif n = true ->
+  (exists pr, n_prefix n = Some pr /\ gp_target pr = k) -> k <> "" ->
+  tree_ok (ts_tree (fst (target_gnmi_update fl t n))) /\
+  (forall w, snd (target_gnmi_update fl t n) = GPanic w -> attrib n w).
+Proof.
+  intros Hok Hw Hpr Hk. unfold target_gnmi_update.
+  destruct (n_atomic n) eqn:Hat.
+  - destruct (n_del n) as [|d ds]; [|cbn [fst snd]; split; [assumption|intros w E; discriminate E]].
+    destruct (n_upd n) as [|u us] eqn:Eu; [cbn [fst snd]; split; [assumption|intros w E; discriminate E]|].
+    apply unit_update_inv with (k := k); auto; rewrite ?Eu; try discriminate.
+  - pose proof (multi_inv t n k Hok Hw Hat Hpr Hk) as Hm. unfold multi in Hm.
+    destruct (n_upd n) as [|u [|u2 us]] eqn:Eu; destruct (n_del n) as [|d [|d2 ds]] eqn:Ed;
+      try exact Hm.
+    + apply unit_delete_inv with (k := k) (d := d); auto.
+    + apply unit_update_inv with (k := k); auto; rewrite Eu; [discriminate|right; eauto].
+Qed.
+
+Theorem ingest_panic_attributed c n c' w :
+  st_wf c -> wire_notif n = true -> ingest fl c n = (c', GPanic w) -> attrib n w.
+Proof.
+  intros Hc Hw. unfold ingest.
+  destruct (n_prefix n) as [pr|] eqn:Epr; [|intros E; discriminate E].
+  destruct (assoc (gp_target pr) c) as [t|] eqn:Ea; [|intros E; discriminate E].
+  apply assoc_In in Ea. destruct (Hc _ _ Ea) as [Hk Hok].
+  destruct (target_inv t n (gp_target pr) Hok Hw) as [_ H]; eauto.
+  intros E; inversion E. now apply H.
+Qed.
+
+Theorem ingest_preserves_wf c n :
+  st_wf c -> wire_notif n = true -> st_wf (fst (ingest fl c n)).
+Proof.
+  intros Hc Hw. unfold ingest.
+  destruct (n_prefix n) as [pr|] eqn:Epr; [|exact Hc].
+  destruct (assoc (gp_target pr) c) as [t|] eqn:Ea; [|exact Hc].
+  apply assoc_In in Ea. destruct (Hc _ _ Ea) as [Hk Hok].
+  destruct (target_inv t n (gp_target pr) Hok Hw) as [H _]; eauto.
+  cbn [fst]. intros k' t' Hin. apply In_aset_weak in Hin as [E|Hin]; [|now apply Hc].
+  inversion E; subst. auto.
+Qed.
+
+End IngestTheorems.
+
+(** ** corollaries *)
+
+Lemma ingest_total_gen fl c n w :
+  f_idx fl = false -> f_nilval fl = false -> f_equal fl = false ->
+  st_wf c -> wire_notif n = true -> snd (ingest fl c n) <> GPanic w.
+Proof.
+  intros F1 F2 F3 Hc Hw. destruct (ingest fl c n) as [c' r] eqn:E. cbn. intros ->.
+  destruct (ingest_panic_attributed fl c n c' w Hc Hw E) as [(H & _)|[(H & _)|(H & _)]]; congruence.
+Qed.
+
+(** the code as it is now (every C12 switch and the C19_1 switch off) *)
+Lemma ingest_total_cur c n w :
+  st_wf c -> wire_notif n = true -> snd (ingest cur_flags c n) <> GPanic w.
+Proof. apply ingest_total_gen; reflexivity. Qed.
+
+Definition wit_t1 : option gpath := Some (GPath "t1" "" [] []).
+Definition wit_ab : option gpath := Some (GPath "" "" [("a", []); ("b", [])] []).
+Definition wit_double : notif := Notif 1 wit_t1 [Upd wit_ab (TVDouble 4607182418800017408)] [] false.
+Definition wit_noval : notif := Notif 2 wit_t1 [Upd wit_ab TVnil] [] false.
+Definition wit_nilpath : notif := Notif 1 wit_t1 [Upd None (TVInt 1)] [] false.
+Definition wit_sync_noval : notif :=
+  Notif 1 wit_t1 [Upd (Some (GPath "" "" [("meta", []); ("sync", [])] [])) TVnil] [] false.
+Definition wit_c0 : cstate := new_cstate ["t1"].
+Definition wit_c1 : cstate := fst (ingest all_defects wit_c0 wit_double).
+
+Lemma wit_c0_wf : st_wf wit_c0.
+Proof. apply st_wf_new. intros [H|[]]; discriminate H. Qed.
+
+Lemma wit_c1_wf : st_wf wit_c1.
+Proof. apply ingest_preserves_wf; [apply wit_c0_wf|reflexivity]. Qed.
+
+(** on the code before the patches each defect class crashes the cache *)
+Lemma ingest_total_refuted_idx :
+  exists c n w, st_wf c /\ wire_notif n = true /\ snd (ingest all_defects c n) = GPanic w.
+Proof. exists wit_c0, wit_nilpath, panic_path0. split; [apply wit_c0_wf|]. split; reflexivity. Qed.
+
+Lemma ingest_total_refuted_nilval :
+  exists c n w, st_wf c /\ wire_notif n = true /\ snd (ingest all_defects c n) = GPanic w.
+Proof. exists wit_c0, wit_sync_noval, panic_nil_val. split; [apply wit_c0_wf|]. split; reflexivity. Qed.
+
+Lemma ingest_total_refuted_equal :
+  exists c n w, st_wf c /\ wire_notif n = true /\ snd (ingest all_defects c n) = GPanic w.
+Proof. exists wit_c1, wit_noval, panic_equal. split; [apply wit_c1_wf|]. split; vm_compute; reflexivity. Qed.
+
+(** the hypotheses are satisfiable by a non-trivial state and message, and the
+    same inputs are handled by the current code *)
+Example ingest_total_example :
+  st_wf wit_c1 /\ wire_notif wit_noval = true /\ snd (ingest cur_flags wit_c1 wit_noval) = GOk.
+Proof. split; [apply wit_c1_wf|]. split; vm_compute; reflexivity. Qed.
+
+(** ** a rejected notification leaves the stored data unchanged *)
+
+Lemma join_path_no_err pr ph e : join_path pr ph <> Err e.
+Proof.
+  unfold join_path, join_prefix_and_path.
+  destruct (to_strings true (gp_of_opt pr) ++ to_strings false (gp_of_opt ph)); discriminate.
+Qed.
+
+Lemma gnmi_update1_err fl t n t' e :
+  gnmi_update1 fl t n = (t', Err e) -> ts_tree t' = ts_tree t.
+Proof.
+  unfold gnmi_update1. destruct (n_upd n) as [|u us]; [intros H; discriminate H|].
+  destruct (join_path _ _) as [p|e1|w]; try (intros H; inversion H; subst; reflexivity).
+  destruct (update_pre fl t p (u_val u)) as [t1 o] eqn:Ep.
+  assert (Ht1 : ts_tree t1 = ts_tree t).
+  { replace t1 with (fst (update_pre fl t p (u_val u))) by now rewrite Ep. apply update_pre_tree. }
+  destruct o as [x|e1|w]; try (intros H; inversion H; subst; assumption).
+  unfold update_leaf.
+  destruct (CTreeModel.get (ts_tree t1) p) as [[old|cs]|].
+  - destruct (Z.ltb _ _); [intros H; inversion H; subst; assumption|].
+    destruct (_ && _); [intros H; inversion H; subst; assumption|].
+    destruct (n_atomic n); [intros H; discriminate H|].
+    destruct (n_upd old); [intros H; discriminate H|].
+    destruct (equal_gen _ _ _); intros H; discriminate H.
+  - intros H; inversion H; subst; assumption.
+  - destruct (CTreeModel.add (ts_tree t1) p n); intros H; inversion H; subst; assumption.
+Qed.
+
+Lemma gnmi_remove_no_err fl t n t' e : gnmi_remove fl t n <> (t', Err e).
+Proof.
+  unfold gnmi_remove. destruct (n_del n) as [|d ds]; [discriminate|].
+  pose proof (join_path_no_err (n_prefix n) (Some d)) as Hj.
+  destruct (join_path (n_prefix n) (Some d)) as [p|e1|w]; [|exfalso; eapply Hj; eauto|discriminate].
+  destruct p as [|p0 [|k r]].
+  - destruct (f_idx fl); discriminate.
+  - destruct (String.eqb p0 md_root); [destruct (f_idx fl)|]; discriminate.
+  - destruct (String.eqb p0 md_root); discriminate.
+Qed.
+
+Lemma target_err fl t n t' e :
+  target_gnmi_update fl t n = (t', GErr e) -> ts_tree t' = ts_tree t.
+Proof.
+  assert (L1 : forall r, lift1 r = (t', GErr e) -> r = (t', Err e)).
+  { intros [t0 [x|e0|w]]; cbn; intros H; inversion H; subst; reflexivity. }
+  unfold target_gnmi_update. destruct (n_atomic n).
+  - destruct (n_del n); [|intros H; inversion H; subst; reflexivity].
+    destruct (n_upd n) eqn:Eu; [intros H; discriminate H|].
+    intros H. apply L1 in H. eapply gnmi_update1_err; eauto.
+  - assert (Hm : forall a, (a_t a,
+                  match a_panic a with
+                  | Some w => GPanic w
+                  | None => match a_errs a with [] => GOk | es => GErrs es end
+                  end) <> (t', GErr e)).
+    { intros a. destruct (a_panic a); [discriminate|]. destruct (a_errs a); discriminate. }
+    destruct (n_upd n) as [|u [|u2 us]] eqn:Eu; destruct (n_del n) as [|d [|d2 ds]] eqn:Ed;
+      try (intros H; exfalso; eapply Hm; exact H).
+    + intros H; discriminate H.
+    + intros H. apply L1 in H. exfalso. eapply gnmi_remove_no_err; eauto.
+    + intros H. apply L1 in H. eapply gnmi_update1_err; eauto.
+Qed.
+
+Lemma dump_aset k (t t' : tstate) c :
+  assoc k c = Some t -> ts_tree t' = ts_tree t -> dump (aset k t' c) = dump c.
+Proof.
+  unfold dump, dump_target. induction c as [|[k0 t0] c IH]; cbn; [discriminate|].
+  destruct (String.eqb_spec k k0) as [->|Hn]; cbn.
+  - intros E Ht; inversion E; subst. now rewrite Ht.
+  - intros E Ht. now rewrite IH.
+Qed.
+
+Theorem rejected_preserves_gen fl c n c' e :
+  ingest fl c n = (c', GErr e) -> dump c' = dump c.
+Proof.
+  unfold ingest. destruct (n_prefix n) as [pr|]; [|intros H; inversion H; reflexivity].
+  destruct (assoc (gp_target pr) c) as [t|] eqn:Ea; [|intros H; inversion H; reflexivity].
+  destruct (target_gnmi_update fl t n) as [t' r] eqn:Et. cbn. intros H; inversion H; subst.
+  apply dump_aset with (t := t); auto. eapply target_err; eauto.
+Qed.
+
+Example rejected_preserves_example :
+  exists e, snd (ingest cur_flags wit_c1 wit_double) = GErr e /\
+            dump (fst (ingest cur_flags wit_c1 wit_double)) = dump wit_c1 /\ dump wit_c1 <> dump wit_c0.
+Proof. exists err_stale. split; [vm_compute; reflexivity|]. split; [vm_compute; reflexivity|]. vm_compute. discriminate. Qed.
+
+(** * Entry point 3: client receive path *)
+
+Lemma noti_no_panic jv prefix pp u w :
+  (forall x, u = Some x -> wire_cupd x = true) -> noti jv prefix pp u <> Panic w.
+Proof.
+  intros Hw. unfold noti. destruct u as [x|]; [|discriminate].
+  specialize (Hw x eq_refl). unfold wire_cupd in Hw.
+  assert (Hs : forall v, has_nil v = false ->
+            match to_scalar jv v with
+            | Ok _ => Ok (EUpdate (prefix ++ to_strings false pp))
+            | Err _ => Err err_decode
+            | Panic w0 => Panic w0
+            end <> Panic w).
+  { intros v Hv. pose proof (to_scalar_total_partial defect_C19_2 jv v) as Ht. unfold to_scalar.
+    destruct (to_scalar_gen defect_C19_2 jv v) eqn:E; try discriminate.
+    exfalso. eapply Ht; eauto. }
+  destruct (cu_val x) eqn:Ev;
+    try (apply Hs; apply negb_true_iff in Hw; exact Hw);
+    try (apply Hs; reflexivity).
+  destruct (cu_dep x) as [[enc b]|]; [|discriminate].
+  destruct (N.eqb enc 1); [discriminate|]. destruct (N.eqb enc 0 || N.eqb enc 4); [|discriminate].
+  destruct (jv b); discriminate.
+Qed.
+
+Lemma recv_updates_no_panic jv prefix us w :
+  forallb wire_cupd us = true -> snd (recv_updates jv prefix us) <> Panic w.
+Proof.
+  induction us as [|u us IH]; cbn [recv_updates forallb]; [discriminate|]. intros H. apply andb_true_iff in H as [H1 H2].
+  destruct (cu_path u) as [pp|]; [|discriminate].
+  pose proof (noti_no_panic jv prefix pp (Some u) w) as Hn.
+  destruct (noti jv prefix pp (Some u)) eqn:E; cbn [fst snd]; try discriminate.
+  - now apply IH.
+  - intros Hq. apply Hn; [intros x Hx; inversion Hx; subst; assumption|]. inversion Hq; reflexivity.
+Qed.
+
+Lemma recv_deletes_no_panic jv prefix ds w : snd (recv_deletes jv prefix ds) <> Panic w.
+Proof.
+  induction ds as [|d ds IH]; cbn [recv_deletes]; [discriminate|].
+  pose proof (noti_no_panic jv prefix d None w) as Hn.
+  destruct (noti jv prefix d None) eqn:E; cbn [fst snd]; try discriminate; auto.
+Qed.
+
+Lemma default_recv_no_panic jv qt r w :
+  wire_resp r = true -> snd (default_recv jv qt r) <> Panic w.
+Proof.
+  destruct r as [n| | |]; cbn [default_recv wire_resp snd]; try discriminate. intros Hw.
+  pose proof (recv_updates_no_panic jv (to_strings true (gp_of_opt (cn_prefix n))) (cn_upd n) w Hw) as H1.
+  pose proof (recv_deletes_no_panic jv (to_strings true (gp_of_opt (cn_prefix n))) (cn_del n) w) as H2.
+  destruct (recv_updates _ _ _) as [evs [x|e|w1]]; cbn in *; try discriminate; [|congruence].
+  destruct (recv_deletes _ _ _) as [evs' [x'|e'|w2]]; cbn in *; try discriminate. congruence.
+Qed.
+
+Theorem client_recv_total_lemma jv qt rs : forall connected w,
+  forallb wire_resp rs = true -> snd (ClientRecvModel.run jv qt connected rs) <> Panic w.
+Proof.
+  induction rs as [|r rs IH]; intros connected w; cbn [ClientRecvModel.run forallb]; [discriminate|].
+  intros H. apply andb_true_iff in H as [H1 H2].
+  pose proof (default_recv_no_panic jv qt r w H1) as Hd.
+  destruct (default_recv jv qt r) as [evs [[|]|e|w1]]; cbn in *; try discriminate; [|congruence].
+  specialize (IH true w H2). destruct (ClientRecvModel.run jv qt true rs) as [[evs' rest'] o]. cbn in *. exact IH.
+Qed.
+
+Definition wit_resp : resp :=
+  RUpdate (CNotif None [CUpd (Some (GPath "" "" [("a", [])] [])) (TVLeaflist [TVInt 1; TVAny]) None;
+                        CUpd None TVnil None] []).
+
+Example client_recv_example :
+  wire_resp wit_resp = true /\
+  ClientRecvModel.run (fun _ => true) QStream false [wit_resp] = ([EConnected], [], Err err_decode).
+Proof. split; vm_compute; reflexivity. Qed.
+
+(** * Entry point 4: CLI display *)
+
+(** positions of plain values in a display map *)
+Fixpoint at_val (m : pathmap) (r : path) : bool :=
+  match r with
+  | [] => false
+  | k :: r' =>
+      match r' with
+      | [] => match assoc k m with Some PVal => true | _ => false end
+      | _ :: _ => match assoc k m with Some (PMap mm) => at_val mm r' | _ => false end
+      end
+  end.
+
+Lemma at_val_nil r : at_val [] r = false.
+Proof. destruct r as [|k [|k2 r]]; reflexivity. Qed.
+
+Lemma strict_prefix_cons k r q : strict_prefix (k :: r) (k :: q) = strict_prefix r q.
+Proof. unfold strict_prefix. cbn. now rewrite String.eqb_refl. Qed.
+
+Lemma strict_prefix_single k k2 q : strict_prefix [k] (k :: k2 :: q) = true.
+Proof. unfold strict_prefix. cbn. now rewrite String.eqb_refl. Qed.
+
+Lemma pm_add_cons2 d m k k2 rest v :
+  pm_add d m (k :: k2 :: rest) v =
+  match assoc k m with
+  | None =>
+      match pm_add d [] (k2 :: rest) v with
+      | Ok mm => Ok (aset k (PMap mm) m)
+      | Err c => Err c
+      | Panic w => Panic w
+      end
+  | Some (PMap mm) =>
+      match pm_add d mm (k2 :: rest) v with
+      | Ok mm' => Ok (aset k (PMap mm') m)
+      | Err c => Err c
+      | Panic w => Panic w
+      end
+  | Some PVal => Panic panic_add_assert
+  end.
+Proof. reflexivity. Qed.
+
+(** pathmap.add (patched: an empty path is skipped) succeeds whenever no plain
+    value sits strictly above the new position *)
+Lemma pm_add_ok q : forall m v,
+  (forall r, at_val m r = true -> strict_prefix r q = false) ->
+  exists m', pm_add false m q v = Ok m'.
+Proof.
+  induction q as [|k rest IH]; intros m v H; [cbn; eauto|].
+  destruct rest as [|k2 rest2]; [cbn; eauto|].
+  rewrite pm_add_cons2. destruct (assoc k m) as [[|mm]|] eqn:Ea.
+  - exfalso. assert (Hv : at_val m [k] = true) by (cbn; now rewrite Ea).
+    apply H in Hv. rewrite strict_prefix_single in Hv. discriminate.
+  - destruct (IH mm v) as [m' Hm'].
+    + intros r Hr. destruct r as [|k1 r1]; [discriminate|].
+      assert (Hv : at_val m (k :: k1 :: r1) = true) by (cbn [at_val]; now rewrite Ea).
+      apply H in Hv. now rewrite strict_prefix_cons in Hv.
+    + rewrite Hm'. eauto.
+  - destruct (IH [] v) as [m' Hm'].
+    + intros r Hr. now rewrite at_val_nil in Hr.
+    + rewrite Hm'. eauto.
+Qed.
+
+Definition val_at (v : pnode) (r : path) : Prop :=
+  match v with PVal => r = [] | PMap mm => at_val mm r = true end.
+
+Lemma pm_add_vals q : forall m v m' r,
+  pm_add false m q v = Ok m' -> at_val m' r = true ->
+  at_val m r = true \/ exists r', r = q ++ r' /\ val_at v r'.
+Proof.
+  induction q as [|k rest IH]; intros m v m' r Ha Hr.
+  - cbn in Ha. inversion Ha; subst. now left.
+  - destruct rest as [|k2 rest2].
+    + cbn in Ha. inversion Ha; subst. clear Ha.
+      destruct r as [|k1 [|k3 r3]]; [discriminate| |].
+      * cbn in Hr. rewrite assoc_aset in Hr. destruct (String.eqb_spec k1 k) as [Ek|Hn]; [subst k1|].
+        -- destruct v; [|discriminate]. right. exists []. split; reflexivity.
+        -- left. cbn. exact Hr.
+      * cbn [at_val] in Hr. rewrite assoc_aset in Hr. destruct (String.eqb_spec k1 k) as [Ek|Hn]; [subst k1|].
+        -- destruct v as [|mm]; [discriminate|]. right. exists (k3 :: r3). split; [reflexivity|exact Hr].
+        -- left. cbn [at_val]. exact Hr.
+    + rewrite pm_add_cons2 in Ha.
+      assert (Hgen : forall mm mm', pm_add false mm (k2 :: rest2) v = Ok mm' ->
+                (forall x, at_val mm x = true -> at_val m (k :: x) = true \/ x = []) ->
+                m' = aset k (PMap mm') m ->
+                at_val m r = true \/ exists r', r = (k :: k2 :: rest2) ++ r' /\ val_at v r').
+      { intros mm mm' Hadd Hsub ->.
+        destruct r as [|k1 [|k3 r3]]; [discriminate| |].
+        - cbn in Hr. rewrite assoc_aset in Hr. destruct (String.eqb_spec k1 k) as [Ek|Hn]; [discriminate|].
+          left. cbn. exact Hr.
+        - cbn [at_val] in Hr. rewrite assoc_aset in Hr. destruct (String.eqb_spec k1 k) as [Ek|Hn]; [subst k1|].
+          + destruct (IH mm v mm' (k3 :: r3) Hadd Hr) as [Hl|(r' & E & Hv)].
+            * destruct (Hsub _ Hl) as [Hm|E]; [now left|discriminate E].
+            * right. exists r'. split; [rewrite E; reflexivity|exact Hv].
+          + left. cbn [at_val]. exact Hr. }
+      destruct (assoc k m) as [[|mm]|] eqn:Ea; [discriminate Ha| |].
+      * destruct (pm_add false mm (k2 :: rest2) v) as [mm'| |] eqn:Hadd; try discriminate Ha.
+        inversion Ha; subst. eapply Hgen; eauto.
+        intros x Hx. destruct x as [|x1 xr]; [now right|]. left. cbn [at_val]. now rewrite Ea.
+      * destruct (pm_add false [] (k2 :: rest2) v) as [mm'| |] eqn:Hadd; try discriminate Ha.
+        inversion Ha; subst. eapply Hgen; eauto.
+        intros x Hx. now rewrite at_val_nil in Hx.
+Qed.
+
+(** every plain value of the map lies at or below one of the paths in [S] *)
+Definition covered (m : pathmap) (S : list path) : Prop :=
+  forall r, at_val m r = true -> exists p, In p S /\ is_prefix p r = true.
+
+Lemma prefix_strict_trans p r q :
+  is_prefix p r = true -> strict_prefix r q = true -> strict_prefix p q = true.
+Proof.
+  rewrite is_prefix_spec, !strict_prefix_spec. intros [s ->] (k & s' & ->).
+  destruct s as [|k0 s0].
+  - exists k, s'. now rewrite app_nil_r.
+  - exists k0, (s0 ++ k :: s'). now rewrite <- app_assoc.
+Qed.
+
+Lemma is_prefix_app p r : is_prefix p (p ++ r) = true.
+Proof. apply is_prefix_spec. eauto. Qed.
+
+Lemma pm_add_covered m S q v :
+  covered m S -> (forall p, In p S -> strict_prefix p q = false) ->
+  exists m', pm_add false m q v = Ok m' /\ covered m' (q :: S).
+Proof.
+  intros Hc Hpf. destruct (pm_add_ok q m v) as [m' Hm'].
+  - intros r Hr. destruct (Hc r Hr) as (p & Hp & Hpr).
+    destruct (strict_prefix r q) eqn:E; [|reflexivity].
+    rewrite <- (Hpf p Hp). symmetry. eapply prefix_strict_trans; eauto.
+  - exists m'. split; [assumption|]. intros r Hr.
+    destruct (pm_add_vals q m v m' r Hm' Hr) as [Hl|(r' & -> & _)].
+    + destruct (Hc r Hl) as (p & Hp & Hpr). exists p. split; [now right|assumption].
+    + exists q. split; [now left|apply is_prefix_app].
+Qed.
+
+Definition prefix_free (L : list path) : Prop :=
+  forall p q, In p L -> In q L -> strict_prefix p q = false.
+
+Lemma add_all_ok with_ts L : forall m S,
+  covered m S -> prefix_free (S ++ L) ->
+  exists m', add_all false with_ts m L = Ok m'.
+Proof.
+  induction L as [|q L IH]; intros m S Hc Hpf; cbn [add_all]; [eauto|].
+  destruct (pm_add_covered m S q (stamped with_ts) Hc) as (m' & Hm' & Hc').
+  - intros p Hp. apply Hpf; apply in_or_app; [now left|right; now left].
+  - rewrite Hm'. apply (IH m' (q :: S) Hc').
+    intros a b Ha Hb. apply Hpf; apply in_or_app.
+    + cbn in Ha. destruct Ha as [<-|Ha]; [right; now left|].
+      apply in_app_or in Ha as [Ha|Ha]; [now left|right; now right].
+    + cbn in Hb. destruct Hb as [<-|Hb]; [right; now left|].
+      apply in_app_or in Hb as [Hb|Hb]; [now left|right; now right].
+Qed.
+
+(** the leaves of a well-formed client tree are prefix-free (C09) *)
+Lemma client_leaves_prefix_free (t : tree unit) : wf_tree t -> prefix_free (client_leaves t).
+Proof.
+  intros Hwf p q Hp Hq. unfold client_leaves in *.
+  apply in_map_iff in Hp as ([p' []] & <- & Hp). apply in_map_iff in Hq as ([q' []] & <- & Hq).
+  destruct (walk_sorted_exact t Hwf) as [Hperm _].
+  apply (Permutation_in _ Hperm) in Hp. apply (Permutation_in _ Hperm) in Hq.
+  apply walk_exact in Hp; [|assumption]. apply walk_exact in Hq; [|assumption]. cbn [fst].
+  destruct (strict_prefix p' q') eqn:E; [|reflexivity].
+  apply strict_prefix_spec in E as (k & s & ->).
+  pose proof (lookup_tree_prefix_free t p' (k :: s) tt tt Hp Hq). discriminate.
+Qed.
+
+Lemma display_walk_ok with_ts (t : tree unit) :
+  wf_tree t -> exists r, display_walk false with_ts t = Ok r.
+Proof.
+  intros Hwf. unfold display_walk.
+  destruct (add_all_ok with_ts (client_leaves t) [] []) as [m Hm].
+  - intros r Hr. now rewrite at_val_nil in Hr.
+  - cbn. now apply client_leaves_prefix_free.
+  - rewrite Hm. eauto.
+Qed.
+
+Lemma display_one_ok with_ts p : exists r, display_one false with_ts p = Ok r.
+Proof.
+  unfold display_one. destruct with_ts.
+  - destruct (pm_add_covered [] [] (p ++ ["timestamp"]) PVal) as (m1 & H1 & C1).
+    + intros r Hr. now rewrite at_val_nil in Hr.
+    + intros q [].
+    + rewrite H1. destruct (pm_add_covered m1 [p ++ ["timestamp"]] (p ++ ["value"]) PVal C1) as (m2 & H2 & _).
+      * intros q [<-|[]]. destruct (strict_prefix (p ++ ["timestamp"]) (p ++ ["value"])) eqn:E; [|reflexivity].
+        apply strict_prefix_spec in E as (k & s & E).
+        assert (Hl : List.length (p ++ ["value"]) = List.length ((p ++ ["timestamp"]) ++ k :: s)) by congruence.
+        rewrite !app_length in Hl. cbn in Hl. lia.
+      * rewrite H2. eauto.
+  - destruct (pm_add_covered [] [] p PVal) as (m1 & H1 & _).
+    + intros r Hr. now rewrite at_val_nil in Hr.
+    + intros q [].
+    + rewrite H1. eauto.
+Qed.
+
+Lemma ctree_apply_wf t e : wf_tree t -> wf_tree (ctree_apply t e).
+Proof.
+  intros Hwf. destruct e; cbn [ctree_apply]; try assumption.
+  - exact (mut_step_wf t (MAdd p tt) Hwf).
+  - exact (mut_step_wf t (MDel p (fun _ => true)) Hwf).
+Qed.
+
+Lemma apply_all_wf evs : forall t, wf_tree t -> wf_tree (apply_all t evs).
+Proof.
+  unfold apply_all. induction evs as [|e evs IH]; cbn [fold_left]; intros t Hwf; [assumption|].
+  apply IH. now apply ctree_apply_wf.
+Qed.
+
+Lemma stream_events_no_panic with_ts evs : forall t complete,
+  wf_tree t -> snd (stream_events false with_ts t complete evs) = None.
+Proof.
+  induction evs as [|e evs IH]; intros t complete Hwf; cbn [stream_events]; [reflexivity|].
+  pose proof (ctree_apply_wf t e Hwf) as Hwf1.
+  assert (Hstep : forall (o : outcome (list drec * bool)),
+            (exists x, o = Ok x) ->
+            snd (match o with
+                 | Ok (rs, c') =>
+                     let '(t2, c2, rs', pn) := stream_events false with_ts (ctree_apply t e) c' evs in
+                     (t2, c2, rs ++ rs', pn)
+                 | Err _ => (ctree_apply t e, complete, [], None)
+                 | Panic w => (ctree_apply t e, complete, [], Some w)
+                 end) = None).
+  { intros o [[rs c'] ->]. specialize (IH (ctree_apply t e) c' Hwf1).
+    destruct (stream_events false with_ts (ctree_apply t e) c' evs) as [[[t2 c2] rs'] pn]. exact IH. }
+  apply Hstep. destruct e; eauto.
+  - destruct complete; [|eauto]. destruct (display_one_ok with_ts p) as [r ->]. eauto.
+  - destruct complete; [|eauto]. destruct (display_one_ok with_ts p) as [r ->]. eauto.
+  - destruct (display_walk_ok with_ts (ctree_apply t ESync) Hwf1) as [r ->]. eauto.
+Qed.
+
+Theorem cli_display_total_lemma jv dt qt with_ts rs w :
+  forallb wire_resp rs = true -> snd (query_display false jv dt qt with_ts rs) <> Panic w.
+Proof.
+  intros Hw. unfold query_display.
+  assert (Hrun : forall c rs', forallb wire_resp rs' = true ->
+            forall w', snd (ClientRecvModel.run jv qt c rs') <> Panic w')
+    by (intros; now apply client_recv_total_lemma).
+  destruct dt; try discriminate.
+  - destruct qt.
+    + pose proof (Hrun false rs Hw w) as H.
+      destruct (ClientRecvModel.run jv QOnce false rs) as [[evs rest] [x|e|w1]]; cbn in *; try discriminate; [|congruence].
+      destruct (display_walk_ok with_ts (apply_all None evs)) as [r ->]; [apply apply_all_wf; exact I|]. discriminate.
+    + pose proof (Hrun false rs Hw w) as H.
+      destruct (ClientRecvModel.run jv QPoll false rs) as [[evs rest] [x|e|w1]] eqn:E1; cbn in *; try discriminate; [|congruence].
+      assert (Hrest : forallb wire_resp rest = true).
+      { clear H. revert E1. generalize false. revert evs rest Hw. induction rs as [|r0 rs0 IHr]; intros evs rest Hw0 c0; cbn [ClientRecvModel.run].
+        - intros E; inversion E; subst. reflexivity.
+        - cbn in Hw0. apply andb_true_iff in Hw0 as [Ha Hb].
+          destruct (default_recv jv QPoll r0) as [evs0 [[|]|e0|w0]]; try (intros E; discriminate E).
+          + intros E; inversion E; subst. assumption.
+          + destruct (ClientRecvModel.run jv QPoll true rs0) as [[evs' rest'] o'] eqn:E2.
+            intros E; inversion E; subst. eapply IHr; eauto. }
+      pose proof (Hrun true rest Hrest w) as H2.
+      destruct (ClientRecvModel.run jv QPoll true rest) as [[evs2 rest2] [x2|e2|w2]]; cbn in *; try discriminate; [|congruence].
+      destruct (display_walk_ok with_ts (apply_all None (evs ++ evs2))) as [r ->]; [apply apply_all_wf; exact I|]. discriminate.
+    + pose proof (Hrun false rs Hw w) as H.
+      destruct (ClientRecvModel.run jv QStream false rs) as [[evs rest] o]; cbn in *.
+      pose proof (stream_events_no_panic with_ts (filter forwarded evs) None false I) as Hs.
+      destruct (stream_events false with_ts None false (filter forwarded evs)) as [[[t2 c2] recs] pn].
+      cbn in Hs. subst pn. cbn. exact H.
+  - pose proof (Hrun false rs Hw w) as H.
+    destruct (ClientRecvModel.run jv qt false rs) as [[evs rest] o]; cbn in *. exact H.
+Qed.
+
+Example cli_display_example :
+  query_display false (fun _ => true) DGroup QStream true
+    [RSync; RUpdate (CNotif None [CUpd (Some (GPath "" "" [] [])) (TVInt 1) None] [])] =
+  ([DRGroup []; DRGroup [["timestamp"]; ["value"]]], Ok tt) /\
+  exists w, snd (query_display true (fun _ => true) DGroup QStream false
+    [RSync; RUpdate (CNotif None [CUpd (Some (GPath "" "" [] [])) (TVInt 1) None] [])]) = Panic w.
+Proof. split; [vm_compute; reflexivity|]. exists panic_add_empty. vm_compute. reflexivity. Qed.
+
+(** * The metadata refresh after a poisoned counter leaf (DEFECT C12_3) *)
+Definition wit_poison : notif :=
+  Notif 1 wit_t1 [Upd (Some (GPath "" "" [("meta", []); ("targetLeaves", [])] [])) (TVString "x")] [] false.
+
+Lemma meta_refresh_refuted_lemma :
+  exists c n, st_wf c /\ wire_notif n = true /\
+    snd (ingest all_defects c n) = GOk /\ exists w, refresh (fst (ingest all_defects c n)) = Panic w.
+Proof.
+  exists wit_c0, wit_poison. split; [apply wit_c0_wf|]. split; [reflexivity|].
+  split; [vm_compute; reflexivity|]. exists panic_meta_assert. vm_compute. reflexivity.
+Qed.
+
+Example meta_refresh_patched_example :
+  snd (ingest cur_flags wit_c0 wit_poison) = GErr err_meta_type /\
+  refresh (fst (ingest cur_flags wit_c0 wit_poison)) = Ok tt.
+Proof. split; vm_compute; reflexivity. Qed.
+
+Lemma subscribe_needs_peer :
+  exists e f w, se_has_peer e = false /\ subscribe e f = Panic w.
+Proof.
+  exists (SEnv ["t1"] false),
+         (RecvMsg (SubReq KSubscribe (Some (GPath "t1" "" [] [])) 1 false [])), panic_no_peer.
+  split; reflexivity.
+Qed.
+
+Example subscribe_example :
+  subscribe (SEnv ["t1"] true)
+    (RecvMsg (SubReq KSubscribe (Some (GPath "t1" "o" [] [])) 1 false
+                [None; Some (GPath "" "o2" [("a", [])] [])])) = Err err_complete_path.
+Proof. reflexivity. Qed.
+
+Lemma cli_display_refuted_lemma :
+  exists jv dt qt with_ts rs w,
+    forallb wire_resp rs = true /\ snd (query_display true jv dt qt with_ts rs) = Panic w.
+Proof.
+  destruct cli_display_example as [_ [w H]].
+  eexists _, _, _, _, _, w. split; [|exact H]. reflexivity.
+Qed.
+
+Lemma client_recv_total_args jv qt rs connected w :
+  forallb wire_resp rs = true -> snd (ClientRecvModel.run jv qt connected rs) <> Panic w.
+Proof. apply client_recv_total_lemma. Qed.
